@@ -507,6 +507,11 @@ def execute(case, ctx):
         # untouched top-level statements keep their text (with leading comment block and line comment)
         lines = marked_src.split('\n')
 
+        try:
+            lstart, _ = c04.logical_lines(marked_src)
+        except Exception:
+            lstart = {}
+
         for k, s in enumerate(originals):
             neigh = [originals[j] for j in (k - 1, k, k + 1) if 0 <= j < len(originals)]
 
@@ -518,6 +523,9 @@ def execute(case, ctx):
 
             if any(o is not r and o.lineno <= r.end_lineno and o.end_lineno >= lo for o in marked_tree.body):
                 continue  # shares a physical line with another statement (';'): its text is not a set of whole lines
+
+            if any(o is not r and lstart.get(o.lineno - 1, o.lineno - 1) == lstart.get(r.lineno - 1, r.lineno - 1) for o in marked_tree.body):
+                continue  # shares a LOGICAL line with another statement ('a; \\' + newline + 'b'): same thing across a backslash continuation
 
             while lo > 1 and lines[lo - 2].lstrip().startswith('#'):
                 lo -= 1
